@@ -924,6 +924,10 @@ def slice_extent(n, s):
     except (UnknownTruth, TypeError):
         if isinstance(stop, Size) and CTX.atoms.le(n, stop):
             stop = n
+        elif isinstance(stop, Size) and s.stop is not None and not CTX.atoms.le(stop, n):
+            # NumPy clamps a slice bound to the length of the axis: a[:k] has min(k, n) entries when the order of k and n is not known
+            from .shape import sz_min
+            stop = sz_min(CTX.atoms, stop, n)
     if sz_eq(start, 0) and sz_eq(stop, n):
         return 0, n, n
     length = simp(Size.of(stop, CTX.atoms) - start)
@@ -1194,6 +1198,8 @@ def point_store(a, idx, vecs, v, inplace):
 def setitem(a, idx, v):
     if isinstance(v, Arr) and v.buf is a.buf and v.tags.get('inplace_done'):
         return          # x[sel] op= y : the in-place operation on the view has already been recorded; storing the view back is a no-op
+    if isinstance(v, (list, tuple)) or type(v).__name__ == 'SymList':
+        v = np_array(v)          # a[sel] = [ ... ] stores np.asarray of the list (the elements stay traceable)
     idx = expand_index(a, idx)
     vecs = [(pos, x) for pos, x in enumerate(idx) if (isinstance(x, Arr) and x.ndim >= 1) or isinstance(x, list)]
     if vecs and isinstance(v, Arr) and v.tags.get('gathered') == (a.buf.uid, tuple(id(x) for _, x in vecs)) and v.buf.writes:
